@@ -15,7 +15,10 @@ package main
 
 import (
 	"fmt"
+	"io/ioutil"
 	"net"
+	"os"
+	"path/filepath"
 	"runtime"
 	"sort"
 	"strconv"
@@ -422,6 +425,9 @@ func c10exec(c *h.Ctx, cs *h.Case) {
 	var started []*fix.Rec
 	var doneSet = map[int]bool{}
 	churned := 0
+	churnT0 := time.Now()
+	closedOnce := false
+	diverged := false
 	id := fmt.Sprintf("%d-%s", time.Now().UnixNano(), cs.ID)
 	goBefore := runtime.NumGoroutine()
 	outcome := []string{}
@@ -467,7 +473,7 @@ func c10exec(c *h.Ctx, cs *h.Case) {
 			tree = cl.Roster.GenerateBinaryTree()
 			cs.Impl = append(cs.Impl, "ok")
 			continue
-		case "srvstart", "srvclose", "srvdone", "srvgrace", "srvchurn":
+		case "srvstart", "srvclose", "srvdone", "srvgrace", "srvchurn", "srvwait":
 			if cl == nil {
 				bad()
 				continue
@@ -482,12 +488,23 @@ func c10exec(c *h.Ctx, cs *h.Case) {
 				}
 				ov.VerifSetTreeGrace(time.Duration(ms) * time.Millisecond)
 				cs.Impl = append(cs.Impl, "ok")
+			case "srvwait":
+				us, ok := num()
+				if !ok {
+					bad()
+					continue
+				}
+				if d := time.Until(churnT0.Add(time.Duration(us) * time.Microsecond)); d > 0 && d < 5*time.Second {
+					time.Sleep(d)
+				}
+				cs.Impl = append(cs.Impl, "ok")
 			case "srvchurn":
 				n, ok := num()
 				if !ok || n > 50 {
 					bad()
 					continue
 				}
+				var recs []*fix.Rec
 				for j := 0; j < n; j++ {
 					// a chain of j+2 nodes over the two servers: a tree id of its own
 					parent, member := []int{-1}, []int{0}
@@ -499,11 +516,16 @@ func c10exec(c *h.Ctx, cs *h.Case) {
 					pi, err := ov.StartProtocol(fix.ProtoName, t, onet.NilServiceID)
 					if err == nil && pi != nil {
 						if rec := fix.RecOf(pi.Token()); rec != nil {
-							rec.Tni.Done()
+							recs = append(recs, rec)
 						}
 					}
 					started = append(started, nil)
 				}
+				// all of them done in one go: their trees' removal timers come due together
+				for _, rec := range recs {
+					rec.Tni.Done()
+				}
+				churnT0 = time.Now()
 				churned += n
 				cs.Impl = append(cs.Impl, fmt.Sprintf("insts=%d", ov.VerifInstanceCount()))
 			case "srvstart":
@@ -532,6 +554,9 @@ func c10exec(c *h.Ctx, cs *h.Case) {
 				}
 				n := ov.VerifInstanceCount()
 				cs.Impl = append(cs.Impl, fmt.Sprintf("start=%s insts=%d", res, n))
+				if closedOnce && (res == "ok" || n != 0) {
+					cs.Fail("instance-after-close", fmt.Sprintf("a protocol start after Server.Close returned: start=%s, %d instance(s) listed on the closed server", res, n))
+				}
 			case "srvdone":
 				i, ok := num()
 				if !ok || i >= len(started) || started[i] == nil || doneSet[i] {
@@ -556,11 +581,12 @@ func c10exec(c *h.Ctx, cs *h.Case) {
 				}()
 				select {
 				case <-done:
-				case <-time.After(20 * time.Second):
+				case <-time.After(8 * time.Second):
 					cs.Impl = append(cs.Impl, "hang")
-					cs.Fail("hang:close", "Server.Close did not return within 20 s")
+					cs.Fail("hang:close", "Server.Close did not return within 8 s")
 					return
 				}
+				closedOnce = true
 				n := ov.VerifInstanceCount()
 				cs.Impl = append(cs.Impl, fmt.Sprintf("close=%s insts=%d", res, n))
 				// oracle: after Close returned no instance exists; evidence: reader goroutines
@@ -586,7 +612,9 @@ func c10exec(c *h.Ctx, cs *h.Case) {
 				continue
 			}
 			want := sh.openPeers()
-			ctl.waitFor(2500*time.Millisecond, func() bool { return fmt.Sprint(ctl.openPeers()) == fmt.Sprint(want) })
+			if !diverged {
+				ctl.waitFor(2500*time.Millisecond, func() bool { return fmt.Sprint(ctl.openPeers()) == fmt.Sprint(want) })
+			}
 			open, rest, view := ctl.openPeers(), ctl.rest(), ctl.view()
 			cs.Impl = append(cs.Impl, fmt.Sprintf("open=%s rest=%v %s", h.Ints(open), rest, view))
 			ctl.mu.Lock()
@@ -741,7 +769,30 @@ func c10exec(c *h.Ctx, cs *h.Case) {
 			continue
 		}
 		want := sh.view()
-		ctl.waitFor(2500*time.Millisecond, func() bool { return ctl.view() == want })
+		peerConns := func() bool {
+			// the peers' own goroutines have seen every connection made so far (so that the
+			// order in which a peer knows its connections is the order in which they were made)
+			ctl.mu.Lock()
+			defer ctl.mu.Unlock()
+			for k, p := range ctl.peers {
+				n := 0
+				for _, t := range sh.threads {
+					if t.kind != "stop" && t.peer == k {
+						n += len(t.conns)
+					}
+				}
+				if len(p.conns) < n {
+					return false
+				}
+			}
+			return true
+		}
+		if !diverged && !ctl.waitFor(1500*time.Millisecond, func() bool { return ctl.view() == want && peerConns() }) {
+			// the real router's goroutines are not where this schedule should have brought
+			// them: no point in pacing the rest of the schedule (each step would time out)
+			diverged = true
+			c10noteDiverged(c)
+		}
 		cs.Impl = append(cs.Impl, ctl.view())
 	}
 	if cl != nil {
@@ -762,10 +813,10 @@ func c10exec(c *h.Ctx, cs *h.Case) {
 	go func() { ctl.r.Stop(); stopDone <- true }()
 	select {
 	case <-stopDone:
-	case <-time.After(10 * time.Second):
-		cs.Fail("hang:stop", "a final Router.Stop did not return within 10 s: "+ctl.view())
+	case <-time.After(5 * time.Second):
+		cs.Fail("hang:stop", "a final Router.Stop did not return within 5 s: "+ctl.view())
 	}
-	ok := ctl.waitFor(8*time.Second, func() bool {
+	ok := ctl.waitFor(4*time.Second, func() bool {
 		ctl.mu.Lock()
 		defer ctl.mu.Unlock()
 		for _, t := range ctl.threads {
@@ -775,7 +826,7 @@ func c10exec(c *h.Ctx, cs *h.Case) {
 		}
 		return true
 	})
-	if !ok {
+	if !ok && !diverged {
 		cs.Fail("hang:thread", "after the end of the schedule a Send or Stop never returned: "+ctl.view())
 	}
 	for _, t := range ctl.threads {
@@ -784,8 +835,10 @@ func c10exec(c *h.Ctx, cs *h.Case) {
 			case <-t.bgErr:
 				// (on TCP the port of the stopped router may have been given to a peer
 				// created later, so a success here says nothing)
-			case <-time.After(8 * time.Second):
-				cs.Fail("hang:peer-send", "a peer's Send towards the router under test never returned")
+			case <-time.After(4 * time.Second):
+				if !diverged {
+					cs.Fail("hang:peer-send", "a peer's Send towards the router under test never returned")
+				}
 			}
 		}
 	}
@@ -809,12 +862,21 @@ func c10exec(c *h.Ctx, cs *h.Case) {
 			ev += " port-NOT-rebound"
 		}
 	}
-	for _, p := range ctl.peers {
-		p.r.Stop()
-		c10ctls.Delete(p.r)
+	cleaned := make(chan bool, 1)
+	go func() {
+		for _, p := range ctl.peers {
+			p.r.Stop()
+			c10ctls.Delete(p.r)
+		}
+		c10ctls.Delete(ctl.r)
+		ctl.lm.Stop()
+		cleaned <- true
+	}()
+	select {
+	case <-cleaned:
+	case <-time.After(4 * time.Second):
+		ev += " peers-cleanup-slow"
 	}
-	c10ctls.Delete(ctl.r)
-	ctl.lm.Stop()
 	time.Sleep(20 * time.Millisecond)
 	ctl.waitFor(300*time.Millisecond, func() bool { return runtime.NumGoroutine()-goBefore <= 2 })
 	if d := runtime.NumGoroutine() - goBefore; d <= 2 {
@@ -827,6 +889,25 @@ func c10exec(c *h.Ctx, cs *h.Case) {
 		cs.Outcome += " last:" + c10abstract(cs.Impl[len(cs.Impl)-1])
 	}
 	cs.Outcome += " evidence:" + ev
+}
+
+// c10noteDiverged leaves a mark next to the parent's work directory, so that the generator
+// stops producing schedules once enough of them have gone astray (a broken tree makes every
+// such case wait for its time-outs)
+func c10noteDiverged(c *h.Ctx) {
+	dir := c.Workdir
+	if os.Getenv("ONETHARNESS_CHILD") != "" {
+		dir = filepath.Dir(dir)
+	}
+	if f, err := os.OpenFile(filepath.Join(dir, "c10_diverged"), os.O_APPEND|os.O_CREATE|os.O_WRONLY, 0600); err == nil {
+		f.WriteString("x\n")
+		f.Close()
+	}
+}
+
+func c10tooManyDiverged(c *h.Ctx) bool {
+	b, _ := ioutil.ReadFile(filepath.Join(c.Workdir, "c10_diverged"))
+	return len(b) >= 2*8
 }
 
 // c10abstract turns a view into its multiset of states (for counting distinct outcomes)
@@ -844,6 +925,10 @@ func c10abstract(v string) string {
 func c10gen(c *h.Ctx, yield func(*h.Case)) {
 	r := c.Rng
 	emit := func(class string, ops []string) {
+		if c10tooManyDiverged(c) && !strings.HasPrefix(class, "corpus") {
+			c.Count("skipped-after-too-many-diverging-schedules")
+			return
+		}
 		c.Count("class=" + class)
 		f0 := strings.Fields(ops[0])
 		c.Count("transport=" + f0[len(f0)-1])
@@ -897,7 +982,7 @@ func c10gen(c *h.Ctx, yield func(*h.Case)) {
 	}
 	// random schedules drawn with the shadow: every op is possible where it is issued
 	for i := 0; i < c.Pick(150, 4000); i++ {
-		if c.TooManyFails() {
+		if c.TooManyFails() || c10tooManyDiverged(c) {
 			break
 		}
 		tr := transports[r.Intn(2)]
@@ -970,6 +1055,10 @@ func c10gen(c *h.Ctx, yield func(*h.Case)) {
 		for _, ms := range []int{1, 2, 3} {
 			emit("server:close-while-trees-expire", []string{"srv " + tr, fmt.Sprintf("srvgrace %d", ms), "srvstart", "srvchurn 20", "srvclose", "srvstart"})
 		}
+		// Close called when the removal timers of 40 trees are just about due (grace 5 ms)
+		for us := 4300; us <= 5300; us += c.Pick(100, 50) {
+			emit("server:close-when-timers-are-due", []string{"srv " + tr, "srvgrace 5", "srvchurn 40", fmt.Sprintf("srvwait %d", us), "srvclose"})
+		}
 		emit("server:close-with-running", []string{"srv " + tr, "srvstart", "srvstart", "srvstart", "srvclose", "srvdone 1", "srvstart", "srvclose"})
 	}
 	for i := 0; i < c.Pick(6, 100); i++ {
@@ -1004,5 +1093,5 @@ func c10gen(c *h.Ctx, yield func(*h.Case)) {
 }
 
 func init() {
-	h.RegisterProp(h.Prop{Name: "c10", Gen: c10gen, Exec: c10exec, Workers: 6, Isolate: true, Timeout: 90 * time.Second})
+	h.RegisterProp(h.Prop{Name: "c10", Gen: c10gen, Exec: c10exec, Workers: 6, Isolate: true, Timeout: 40 * time.Second})
 }
